@@ -38,7 +38,7 @@ def main(argv):
         print("MACHINERY puan imported from %s, not from %s" % (puan.__file__, core.REPO)); return 2
     if not puan._verif.ENABLED:
         print("MACHINERY hooks are not enabled"); return 2
-    ctx = core.Ctx(pid, a.tier, seed)
+    ctx = core.Ctx(pid, a.tier, seed, replaying=bool(a.replay))
     ctx.known_findings = [k for k in load_known() if k["property"] == pid]
     try:
         if a.replay:
